@@ -6,6 +6,7 @@ import RoaringModel.Lemmas.BitmapQuery
 import RoaringModel.Lemmas.BitmapMut2
 import RoaringModel.Lemmas.SpecFacts
 import RoaringModel.Lemmas.BIterLemmas
+import RoaringModel.Lemmas.ContainerFacts
 /-!
 # The `Safe_*` side conditions follow from well-formedness (C16)
 
@@ -787,6 +788,103 @@ theorem safe_containsRange (b : Bitmap) (h : b.WF) (lo hi : Bound)
                 exact List.mem_of_mem_drop this
               exact Store.safe_containsRange _ (h.storesInv last hlast) _ _ (by omega) hel
             · trivial
+
+/-! ### `insert_range`, the whole method -/
+
+theorem storesInv_findContainerByKey {b : Bitmap} (h : StoresInv b) (key : Nat) :
+    StoresInv (findContainerByKey b key).1 := by
+  unfold findContainerByKey
+  cases hs : search b key with
+  | mk f loc =>
+    cases f with
+    | true => exact h
+    | false =>
+      intro c hc
+      simp only [List.mem_append, List.mem_cons] at hc
+      rcases hc with hc | rfl | hc
+      · exact h c (List.mem_of_mem_take hc)
+      · exact Store.new_inv
+      · exact h c (List.mem_of_mem_drop hc)
+
+theorem safe_insertRangeAt (b : Bitmap) (h : StoresInv b) (key s e : Nat) (hse : s ≤ e) (he : e < 65536) :
+    Safe_insertRangeAt b key s e := by
+  have hf := safe_findContainerByKey b key
+  refine ⟨hf, ?_⟩
+  rw [List.getElem?_eq_getElem hf.2]
+  exact Container.safe_insertRange _ (storesInv_findContainerByKey h key _ (List.getElem_mem hf.2)) s e hse he
+
+theorem modifyAt_insertRange {b : Bitmap} (h : StoresInv b) (loc s e : Nat) (hse : s ≤ e) (he : e < 65536) :
+    StoresInv (modifyAt b loc (fun c => c.insertRange s e) 0).1 ∧
+    (modifyAt b loc (fun c => c.insertRange s e) 0).2 ≤ 65536 := by
+  unfold modifyAt
+  cases hc : b[loc]? with
+  | none => exact ⟨h, by simp⟩
+  | some c =>
+    have hcI : c.store.Inv := h c (List.mem_of_getElem? hc)
+    obtain ⟨_, h2, _, h4⟩ := Container.insertRange_spec c hcI s e hse he
+    simp only []
+    refine ⟨?_, by rw [h4]; omega⟩
+    intro d hd
+    rcases List.mem_or_eq_of_mem_set hd with hd | rfl
+    · exact h d hd
+    · exact Store.canon_inv _ h2
+
+theorem safe_insertRangeLoop (ek ei : Nat) (hei : ei < 65536) (ks : List Nat) : ∀ (st : Bitmap × Nat × Nat),
+    StoresInv st.1 → st.2.1 ≤ 65535 → st.2.2 + 65536 * (ks.length + 1) < 18446744073709551616 →
+    Safe_insertRangeLoop ek ei ks st := by
+  induction ks with
+  | nil =>
+    intro st h _ hacc
+    unfold Safe_insertRangeLoop
+    refine ⟨safe_insertRangeAt st.1 h ek 0 ei (Nat.zero_le _) hei, ?_⟩
+    have := (modifyAt_insertRange (storesInv_findContainerByKey h ek) (findContainerByKey st.1 ek).2 0 ei
+      (Nat.zero_le _) hei).2
+    simp only [List.length_nil] at hacc
+    show _ < 2^64
+    simp only []
+    omega
+  | cons i ks ih =>
+    intro st h hlow hacc
+    unfold Safe_insertRangeLoop
+    have h65 : (65535 : Nat) < 65536 := by decide
+    have hm := modifyAt_insertRange (storesInv_findContainerByKey h i) (findContainerByKey st.1 i).2 st.2.1 65535
+      hlow h65
+    simp only [List.length_cons, Nat.mul_add, Nat.mul_one] at hacc
+    simp only []
+    refine ⟨safe_insertRangeAt st.1 h i st.2.1 65535 hlow h65, ?_, ?_⟩
+    · show _ < 2^64
+      generalize 65536 * ks.length = m at hacc
+      omega
+    · apply ih _ hm.1 (Nat.zero_le _)
+      simp only [Nat.mul_add, Nat.mul_one]
+      generalize 65536 * ks.length = m at hacc ⊢
+      simp only [← Nat.add_assoc] at hacc ⊢
+      omega
+
+theorem safe_insertRange (b : Bitmap) (h : b.WF) (lo hi : Bound)
+    (hlo : Bound.le u32Max lo) (hhi : Bound.le u32Max hi) : Safe_insertRange b lo hi := by
+  unfold Safe_insertRange
+  cases hc : convertRange u32Max lo hi with
+  | error e => trivial
+  | ok r =>
+    obtain ⟨st, en⟩ := r
+    obtain ⟨hse, hen⟩ := convertRange_bounds lo hi hlo hhi st en hc
+    have hel : lo16 en < 65536 := by unfold lo16; omega
+    have hsl : lo16 st < 65536 := by unfold lo16; omega
+    have hhh : hi16 st ≤ hi16 en := by unfold hi16; exact Nat.div_le_div_right hse
+    have hek : hi16 en < 65536 := by unfold hi16; omega
+    simp only []
+    refine ⟨safe_split st (by omega), safe_split en hen, ?_⟩
+    split
+    · rename_i hk
+      apply safe_insertRangeAt b h.storesInv _ _ _ _ hel
+      unfold hi16 at hk; unfold lo16; omega
+    · refine ⟨hhh, safe_findContainerByKey b _, ?_⟩
+      apply safe_insertRangeLoop _ _ hel _ _ (storesInv_findContainerByKey h.storesInv _) (by simp only []; omega)
+      simp only [List.length_range', Nat.mul_add, Nat.mul_one]
+      have : 65536 * (hi16 en - hi16 st) ≤ 65536 * 65536 := Nat.mul_le_mul_left _ (by omega)
+      generalize 65536 * (hi16 en - hi16 st) = m at this
+      omega
 
 theorem safe_insertRangeCount (b : Bitmap) (h : b.WF) (lo hi : Bound)
     (hlo : Bound.le u32Max lo) (hhi : Bound.le u32Max hi) : Safe_insertRangeCount b lo hi := by
